@@ -138,6 +138,8 @@ def gen_donor(sess: Session, rng: random.Random, types: tuple, *, safe: bool, in
 
 
 def self_contained(m: Any) -> bool:
+    if hasattr(m, 'repeated') and not hasattr(m, 'token_store'):
+        m = m.repeated      # a repeated-field wrapper: judge the node it wraps
     st = m.token_store
     if st is None:
         return True
@@ -192,7 +194,10 @@ def make_donor(sess: Session, recipe: Any) -> Any:
         except Exception as e:
             raise Unresolvable(f'donor text rejected: {e}')
     if 'attached' in recipe:
-        return sess.resolve(recipe['attached'])
+        node = sess.resolve(recipe['attached'])
+        if self_contained(node):
+            raise Unresolvable('the node is not attached anywhere (any more): precondition of the fault is gone')
+        return node
     if 'copy_of' in recipe:
         return copy.deepcopy(sess.resolve(recipe['copy_of']))
     if 'wrapper_copy' in recipe:
